@@ -14,6 +14,9 @@
 //!                         5 = two coins (ujunk + ux), 6 = two coins (first native pool denom + ujunk)
 //!   wfake <i> <amt>       cw20 `Send` of pool asset i (if it is a cw20) carrying the WithdrawLiquidity hook
 //!   sfake <ask> <amt>     cw20 `Send` of the LP token carrying the Swap hook (ask asset `ask`)
+//!   sdirect <o*3+a> <amt> ExecuteMsg::Swap sent directly naming offer asset `o` and ask asset `a` with NOTHING
+//!                         attached: a cw20 offer may only arrive through the token's Send hook, a native
+//!                         offer must be attached (amt > 0)
 //!
 //! Monitors evaluate the properties as stated on the real observations, independent of the Lean
 //! model. `d_exact` is a TEST ORACLE: an exact integer bisection solver for the pool's own invariant,
@@ -785,6 +788,14 @@ fn parse_op(ws: &[&str]) -> Option<(u64, usize, ParsedOp)> {
             }
             ParsedOp::Foreign(0, sel, a[1].parse().ok()?)
         }
+        ("sdirect", 2) => {
+            let k: usize = a[0].parse().ok()?;
+            let amt: u128 = a[1].parse().ok()?;
+            if k >= 9 || amt == 0 {
+                return None;
+            }
+            ParsedOp::Foreign(3, k, amt)
+        }
         ("wfake", 2) | ("sfake", 2) => {
             let i: usize = a[0].parse().ok()?;
             if i >= 3 {
@@ -913,6 +924,17 @@ impl Trio {
                 }
                 AssetInfo::NativeToken { .. } => guarded(|| Err::<AppResponse, _>("a native asset has no Send")),
             },
+            ParsedOp::Foreign(3, k, amt) => {
+                let msg = t::ExecuteMsg::Swap {
+                    offer_asset: Asset { info: w.info_of(*k / 3), amount: Uint128::new(*amt) },
+                    ask_asset: w.info_of(*k % 3),
+                    belief_price: None,
+                    max_spread: Some(Decimal::percent(50)),
+                    to: None,
+                };
+                let app = &mut w.app;
+                guarded(|| app.execute_contract(sender.clone(), pool.clone(), &msg, &[]))
+            }
             ParsedOp::Foreign(_, ask, amt) => {
                 let hook = t::Cw20HookMsg::Swap { ask_asset: w.info_of(*ask), belief_price: None, max_spread: Some(Decimal::percent(50)), to: None };
                 let msg = Cw20ExecuteMsg::Send { contract: pool.to_string(), amount: Uint128::new(*amt), msg: to_json_binary(&hook).unwrap() };
@@ -954,10 +976,11 @@ impl Trio {
             mon.stat(&format!("{}_{oc}", ws[3]));
             match k {
                 0 => mon.stat(&format!("wdirect_coins_{}", ["asset0", "asset1", "asset2", "junk", "none", "junk+ux", "native+junk"][*a])),
-                1 => mon.stat(if w.native[*a] { "wfake_native_asset" } else { "wfake_cw20_asset" }),
+                1 => mon.stat(if w.native.get(*a).copied().unwrap_or(true) { "wfake_native_asset" } else { "wfake_cw20_asset" }),
+                3 => mon.stat(&format!("sdirect_{}_offer_{}_ask", if w.native.get(*a / 3).copied().unwrap_or(true) { "native" } else { "cw20" }, if w.native.get(*a % 3).copied().unwrap_or(true) { "native" } else { "cw20" })),
                 _ => mon.stat("sfake_lp_send"),
             }
-            if *k == 0 && (*a <= 2 && w.native[*a] || *a == 3) && *amt > 0 && *amt <= before.lpp {
+            if *k == 0 && (*a <= 2 && w.native.get(*a).copied().unwrap_or(false) || *a == 3) && *amt > 0 && *amt <= before.lpp {
                 mon.stat("wdirect_one_held_coin_amount_within_locked_lp");
             }
             mon.stat(&format!("foreign_amount_{}", match *amt { 0 => "0", 1 => "1", 999 => "999", 1000 => "1000", 3000 => "3000", x if x == before.users[u][3] => "own_lp_balance", _ => "other" }));
@@ -999,7 +1022,7 @@ fn monitors(
     //      arriving from the wrong token) are refused: nothing but an LP `Send` withdraws, nothing but a
     //      pool asset swaps
     if let ParsedOp::Foreign(k, _, _) = op {
-        let name = ["withdraw_only_through_lp_token", "withdraw_only_through_lp_token", "swap_hook_only_from_pool_asset"][*k as usize];
+        let name = ["withdraw_only_through_lp_token", "withdraw_only_through_lp_token", "swap_hook_only_from_pool_asset", "direct_swap_needs_its_funds"][(*k as usize).min(3)];
         mon.check("C04", name, !ok, || format!("foreign entry point accepted: before {} after {}", a.show(), b.show()));
     }
     // ---- C04 solvency: balance >= reported reserve + pending protocol fee, per asset
